@@ -540,6 +540,12 @@ class Interp:
             return ('opq', (v[-1] if v[0] == 'opq' else v[2]) + ('*',))
         if v[0] == 'moved':
             raise Unproven('deref of a moved value at %r' % (ptr,))
+        if v[0] == 'rawslot':
+            if v[3] == 'outer':
+                return ('mu', v[1], v[2])       # *mut MaybeUninit<(K, V)>: the slot itself
+            # the pointer MaybeUninit::as_ptr()/as_mut_ptr() gave: dereferencing it is assume_init_ref/_mut (O2)
+            self.check_live(st, v[1], v[2], 'deref of as_ptr()')
+            return ('pair', v[1], v[2], ())
         raise Unproven('deref of %r' % (v[0],))
 
     def _proj_load(self, st, v, proj, gs=None):
